@@ -461,6 +461,35 @@ var c04Models = map[string]modelFn{
 		}
 		return mOne(mEnd(out, mC, true))
 	},
+	// DoWhile k (condition index < k): the source runs once, then again while the condition holds: k+1
+	// runs, then C; an error stops it; a silent run never ends.
+	"DoWhile": func(p []int, in []N, aux [][]N) [][]N {
+		vals, term, has := mSplit(in)
+		if !has || term.K == 'E' {
+			return mOne(mEnd(vals, term, has))
+		}
+		var out []int
+		for a := 0; a <= pi(p, 0, 1); a++ {
+			out = append(out, vals...)
+		}
+		return mOne(mEnd(out, mC, true))
+	},
+	// While k: the condition is asked first: k runs, then C (k = 0: C without subscribing).
+	"While": func(p []int, in []N, aux [][]N) [][]N {
+		vals, term, has := mSplit(in)
+		n := pi(p, 0, 1)
+		if n == 0 {
+			return mOne([]N{mC})
+		}
+		if !has || term.K == 'E' {
+			return mOne(mEnd(vals, term, has))
+		}
+		var out []int
+		for a := 0; a < n; a++ {
+			out = append(out, vals...)
+		}
+		return mOne(mEnd(out, mC, true))
+	},
 	// ---------------------------------------------------------------- utility / context: identity
 	"Tap":                      mIdentity,
 	"TapOnNext":                mIdentity,
